@@ -5,6 +5,7 @@ package main
 
 import (
 	"fmt"
+	"os"
 	"sort"
 	"strings"
 	"sync"
@@ -75,18 +76,29 @@ func (s *TermStore) Select(tab *tableT, idx *Term) *Term {
 	if base.umax+1 < n && base.umax+1 > 0 {
 		n = base.umax + 1
 	}
-	// identity / constant detection on the feasible range
+	// identity / constant detection on the feasible range (and the asserted domain of the index)
+	var allowed []bool
+	if s.linc != nil && s.linc.domain != nil {
+		allowed = s.linc.domain[base.id]
+	}
 	ident, constant := true, true
+	first := -1
 	for i := uint64(0); i < n; i++ {
+		if allowed != nil && (int(i) >= len(allowed) || !allowed[i]) {
+			continue
+		}
+		if first < 0 {
+			first = int(i)
+		}
 		if tab.vals[i] != i {
 			ident = false
 		}
-		if tab.vals[i] != tab.vals[0] {
+		if tab.vals[i] != tab.vals[first] {
 			constant = false
 		}
 	}
-	if constant {
-		return s.Const(tab.w, tab.vals[0])
+	if constant && first >= 0 {
+		return s.Const(tab.w, tab.vals[first])
 	}
 	if ident {
 		if base.w >= tab.w {
@@ -195,6 +207,11 @@ func (s *TermStore) noteDomain(c *Term) {
 		}
 	}
 	lc.domain[idx.id] = cur
+	if s.sub == nil {
+		s.sub = &substCtx{m: map[int]*Term{}, memo: map[int]*Term{}}
+	}
+	s.sub.memo = map[int]*Term{}
+	s.sub.m[-1-idx.id] = s.tt // marks the fact set as non-empty so that norm() runs
 }
 
 type atomRef struct {
@@ -256,6 +273,16 @@ func (s *TermStore) noteEquality(a, b *Term) (ok bool, contradiction bool) {
 		return false, false
 	}
 	if !hasXor(a, 8) && !hasXor(b, 8) {
+		// plain equalities with a constant still refine a non-empty system (e.g. padding bits == 0)
+		lc := s.lin()
+		if len(lc.rows) > 0 && (a.IsConst() || b.IsConst()) {
+			fa, fb := lc.form(a), lc.form(b)
+			for i := range fa {
+				if !lc.addEquation(linBit{c: fa[i].c != fb[i].c, atoms: xorAtoms(fa[i].atoms, fb[i].atoms)}) {
+					return false, true
+				}
+			}
+		}
 		return false, false
 	}
 	lc := s.lin()
@@ -307,6 +334,22 @@ func (s *TermStore) linSimplify(t *Term) *Term {
 			}
 		}
 		return s.Const(t.w, v)
+	}
+	if os.Getenv("GOSYM_LINDBG") != "" {
+		fmt.Fprintf(os.Stderr, "[lin] simplify w=%d rows=%d:", t.w, len(lc.rows))
+		for i := range red {
+			if i < 8 {
+				fmt.Fprintf(os.Stderr, " b%d{c=%v n=%d", i, red[i].c, len(red[i].atoms))
+				if len(red[i].atoms) <= 3 {
+					for _, a := range red[i].atoms {
+						ar := lc.atomOf[a]
+						fmt.Fprintf(os.Stderr, " %s#%d.%d", opNames[ar.t.op], ar.t.id, ar.bit)
+					}
+				}
+				fmt.Fprintf(os.Stderr, "}")
+			}
+		}
+		fmt.Fprintln(os.Stderr)
 	}
 	// low k bits = consecutive bits of one term, rest zero
 	var base *Term
